@@ -60,6 +60,7 @@ def cov_c19(st, tier):
         "evaluations": st["cases"], "distinct_nontrivial": st["distinct_outcomes"],
         "rule": "state = one (password bytes, challenge) input; transition = one real login_calculate() call (or one real raw-login exchange). distinct = distinct digests produced (first 5 bytes), counted with a hash set",
         "raw_mode_exchanges_checked": st["raw_checks"], "dependence_checks": st["dependence_checks"],
+        "handshakes_under_environment_answer_sequences": st.get("env_handshakes", 0),
         "sanitizer_notes_for_C05_C06": st.get("sanitizer_notes_for_C05_C06", 0),
         "bounds": {"password_lengths": "0..40", "challenges": st["challenges"], "note": "all 2^32 challenges are represented by boundary, single-bit, single-zero and byte-lane values"},
     }
@@ -396,7 +397,7 @@ PROPS = {
         "harness": "C19.c", "flavor": "asan", "engine": "E-C enumerators",
         "tiers": {"quick": {"budget_s": 120}, "thorough": {"budget_s": 300}},
         "coverage": cov_c19,
-        "level_text": "Full product of a password family (lengths 0..40, four fills, every position set to 01/7f/80/ff) and a challenge family (boundary, all single-bit, single-zero, byte-lane values) through the real login_calculate() against an independent RFC 1321 MD5 over the documented formula; dependence on each of the first 32 bytes and each challenge bit; raw-mode +1/-1 observed on the wire from the real server loop and the real client handshake for wrap-around challenges.",
+        "level_text": "Full product of a password family (lengths 0..40, four fills, every position set to 01/7f/80/ff) and a challenge family (boundary, all single-bit, single-zero, byte-lane values) through the real login_calculate() against an independent RFC 1321 MD5 over the documented formula; dependence on each of the first 32 bytes and each challenge bit; raw-mode +1/-1 observed on the wire from the real server loop and the real client handshake for wrap-around challenges; the real client handshake is re-run under every sequence of 0..4 non-answers (silence, late duplicate DNS answer, raw frame with a wrong digest, runt, raw ping) at the raw-login waits and 0..3 at the DNS-login waits, and every (re)transmitted login must carry the documented digest and the documented reply must still be accepted.",
         "level_note": "Trusted: the reference MD5 (self-tested on an RFC 1321 vector). 2^32 challenges are covered by boundary/bit-lane values, not one by one.",
         "technique": "exhaustive enumeration of an input product through the real function vs independent reference; protocol exchange replayed against the real loops",
         "assumptions": COMMON_ASSUME,
@@ -468,7 +469,7 @@ PROPS = {
         ],
         "tiers": {"quick": {"budget_s": 360}, "thorough": {"budget_s": 2400}},
         "coverage": cov_c15,
-        "level_text": "Every server answer that carries tunnel data is decoded by reference decoders for the five presentations (independent of the client) and checked against the fragment size the session negotiated on the wire ('n' request acknowledged by the server; 100 before): payload length, consecutive fragment numbers per downstream packet, last flag only on the fragment that completes a compressed packet, sizes below 2 rejected. (1) E-A: real client and server over the configuration grid under every single fate deviation. (2) E-B: the harness as client of one established session per record type, every sequence up to the depth bound of {acking ping, ping with a stale ack, upstream packet, tun packet of 1 or 3+ fragments, N(200/100/50/3/2/1/0) at any point of a transfer, re-delivery of the newest query with a fresh id, +1 s}.",
+        "level_text": "Every server answer that carries tunnel data is decoded by reference decoders for the five presentations (independent of the client) and checked against the fragment size the session negotiated on the wire ('n' request acknowledged by the server; 100 before): payload length, consecutive fragment numbers per downstream packet, last flag only on the fragment that completes a compressed packet, sizes below 2 rejected. (1) E-A: real client and server over the configuration grid under every single fate deviation. (2) E-B: the harness as client of one established session per record type, every sequence up to the depth bound of {acking ping, ping with a stale ack, upstream packet, tun packet of 1 or 3+ fragments, N(200/100/50/3/2/1/0) at any point of a transfer, re-delivery of the newest query with a fresh id, +1 s, and 'the session goes silent for 61 s and a new session (version, login, lazy switch, no size request) takes over its slot', after which the limit in force is the default 100 again}.",
         "level_note": "F is taken from the wire, not from the server's variable. A resend after a size change is cut at the new size by the server; the property bounds its size but does not promise identical resends, so the monitor follows the server's latest cut. Sizes above what one CNAME/A answer can carry (about 140 bytes) are a user misconfiguration and are not requested for those types. All F in 2..65535 are represented by {2,3,50,100,200} plus the forced sizes of the E-A grid.",
         "technique": "stateless model checking (fate enumeration, deviation-bounded) of real client+server, plus explicit-state depth-bounded search over a client-message alphabet against the real server loop",
         "assumptions": EA_ASSUME + EB_ASSUME[2:],
